@@ -3,6 +3,14 @@
 import json, subprocess
 
 CHECKS = {
+ "C02": ("fault_enumeration",
+         "Hostile channel between signer and verifier: for signed objects from every signing interface (detached, one-pass and prefixed messages, cleartext, certifications, bindings, direct-key, revocations; v4/v6; five key algorithms) every bit of short contents, truncations/extensions, every bit of every hashed field of the signature packet (located by an independent signature-body parser), salt, sampled signature-value bits, the one-pass hash octet/salt, substituted keys and substituted signed objects; every applicable verification entry point must return Err. Cleartext is judged by the symmetric rule (reject iff the reference signed form changed).",
+         "5 (C02)", "signatures/hashes unforgeable; unhashed area, MPI bit counts and the 16-bit prefix are outside the fault set; the cleartext signed-form reference model is 20 lines in the harness",
+         "deterministic simulation with channel fault enumeration between signer and verifier"),
+ "C06": ("exploration",
+         "Fault-free signer->verifier pipeline over ALL strings on {CR,LF,x} up to length 7 and random strings over a canonicalization-exercising alphabet up to 2 KiB, crossed with nine signing interfaces, seven keys, all applicable verification interfaces (detached, streamed, prefixed-signature message, one-pass message incl. armor transport and extraction of the embedded signature, cleartext), source schedules on the streaming signers; plus certificate-forming signatures through SignatureConfig and their verify_* counterparts and verify_bindings.",
+         "5 (C06)", "prefixed-signature messages are assembled by the harness framer; cleartext only for valid UTF-8",
+         "deterministic simulation (fault-free batch) of the sign/verify pipeline"),
  "C03": ("fault_enumeration",
          "Channel faults applied to real encrypted messages: every single-bit flip of the SEIPD packet for containers <= 300 bytes (sampled above), all 256 values of each parameter octet, truncation at every offset raw and with the length repaired, appended bytes (random and replayed chunks, before and after the final tag), every drop/duplicate/swap/permutation of <= 4 AEAD chunks and a dropped/duplicated final tag; read through Message with several consumer scripts and through packet::StreamDecryptor directly. Oracle: Err by the end, no plaintext byte in default SEIPDv1, only a true prefix in SEIPDv2.",
          "5 (C03)", "MDC/AEAD tags treated as unforgeable; the deframer stub locates fields; session key supplied directly or through one password",
